@@ -9,6 +9,7 @@ package c08
 import (
 	"bytes"
 	"crypto/ecdsa"
+	"crypto/elliptic"
 	"fmt"
 	"math/big"
 
@@ -18,7 +19,95 @@ import (
 	"verif/ref/ecref"
 )
 
+// runPeerCurveField: the Curve field of the peer's ephemeral *ecdsa.PublicKey is caller-controlled like its
+// coordinates: nil, another curve on which the coordinates ARE valid, another curve with SM2 coordinates, a wrapper that
+// only shares the parameters. Whatever the object says about itself, the point must be judged on the curve of the
+// exchange: a point that is not on the SM2 curve is refused with an error, an SM2 point gives the right key or an
+// error, and nothing panics.
+func runPeerCurveField(c *engine.Ctx, tp tuple) {
+	c.Case("peer-key/curve-field-variants", func(t *engine.T) {
+		dA, dB, rA, rB := tp.dA.v, tp.dB.v, tp.rA.v, tp.rB.v
+		pubA, pubB := ref.BaseMul(dA), ref.BaseMul(dB)
+		RAref, RBref := ref.BaseMul(rA), ref.BaseMul(rB)
+		nx, ny := elliptic.P256().ScalarBaseMult([]byte{9})
+		type variant struct {
+			name  string
+			mk    func(p ecref.Point) *ecdsa.PublicKey
+			onSM2 bool
+		}
+		vs := []variant{
+			{"curve=nil,sm2-point", func(p ecref.Point) *ecdsa.PublicKey { return &ecdsa.PublicKey{X: new(big.Int).Set(p.X), Y: new(big.Int).Set(p.Y)} }, true},
+			{"curve=nist-p256,nist-point", func(p ecref.Point) *ecdsa.PublicKey {
+				return &ecdsa.PublicKey{Curve: elliptic.P256(), X: new(big.Int).Set(nx), Y: new(big.Int).Set(ny)}
+			}, false},
+			{"curve=nist-p256,sm2-point", func(p ecref.Point) *ecdsa.PublicKey {
+				return &ecdsa.PublicKey{Curve: elliptic.P256(), X: new(big.Int).Set(p.X), Y: new(big.Int).Set(p.Y)}
+			}, true},
+			{"curve=sm2,nist-point", func(p ecref.Point) *ecdsa.PublicKey {
+				return &ecdsa.PublicKey{Curve: curve, X: new(big.Int).Set(nx), Y: new(big.Int).Set(ny)}
+			}, false},
+			{"curve=p384,sm2-point", func(p ecref.Point) *ecdsa.PublicKey {
+				return &ecdsa.PublicKey{Curve: elliptic.P384(), X: new(big.Int).Set(p.X), Y: new(big.Int).Set(p.Y)}
+			}, true},
+		}
+		mkPriv := func(d *big.Int) *sm2.PrivateKey {
+			k, err := sm2.NewPrivateKeyFromInt(d)
+			if err != nil {
+				panic(err)
+			}
+			return k
+		}
+		for _, conf := range []bool{false, true} {
+			want := ref.KeyExchange(true, dA, rA, []byte("A-id"), []byte("B-id"), pubB, RBref, 32)
+			for _, v := range vs {
+				// responder receives the variant as R_A
+				{
+					rsp, err := sm2.NewKeyExchange(mkPriv(dB), toPub(pubA), []byte("B-id"), []byte("A-id"), 32, conf)
+					if err == nil {
+						key := "peer-key/curve-field/" + v.name + "/respond"
+						var e error
+						t.Eval(1)
+						if !t.Guard(key, func() { _, _, e = rsp.RepondKeyExchange(engine.NewScriptReader(b32(rB)), v.mk(RAref)) }) {
+							if !v.onSM2 && e == nil {
+								t.Fail(key+"/off-curve-point-accepted", "conf=%v: RepondKeyExchange accepted a point that is not on the SM2 curve", conf)
+							}
+							if e == nil {
+								t.Outcome(key + "/accepted")
+							} else {
+								t.Outcome(key + "/refused")
+							}
+						}
+					}
+				}
+				// initiator receives the variant as R_B
+				{
+					ini, err := sm2.NewKeyExchange(mkPriv(dA), toPub(pubB), []byte("A-id"), []byte("B-id"), 32, false)
+					if err == nil {
+						key := "peer-key/curve-field/" + v.name + "/confirm-responder"
+						if _, err := ini.InitKeyExchange(engine.NewScriptReader(b32(rA))); err != nil {
+							continue
+						}
+						var k []byte
+						var e error
+						t.Eval(1)
+						if !t.Guard(key, func() { k, _, e = ini.ConfirmResponder(v.mk(RBref), nil) }) {
+							switch {
+							case !v.onSM2 && e == nil:
+								t.Fail(key+"/off-curve-point-accepted", "ConfirmResponder accepted a point that is not on the SM2 curve (key %x)", k)
+							case v.onSM2 && e == nil && want.OK && !bytes.Equal(k, want.Key):
+								t.Fail(key+"/wrong-key", "ConfirmResponder with the SM2 point under Curve variant %s gives %x, reference %x", v.name, k, want.Key)
+							}
+						}
+					}
+				}
+				t.Nontrivial("peer-key/curve-field/" + v.name)
+			}
+		}
+	})
+}
+
 func runDestroy(c *engine.Ctx, tuples []tuple) {
+	runPeerCurveField(c, tuples[0])
 	for ti, tp := range tuples {
 		ti, tp := ti, tp
 		c.Case(fmt.Sprintf("destroy/shared-ephemeral-pointers/tuple#%d", ti), func(t *engine.T) {
